@@ -649,6 +649,115 @@ fn check_long_read(c: &LongReadCase) -> Verdict {
     fails.finish(Pass::new(true, key_of(c)).evals(evals).label_if(c.len >= 131_072, "read>=128KiB").label_if(c.len >= 65_536, "read>=64KiB"))
 }
 
+// ---------------------------------------------------------------------------------------------
+// CIGARs beyond 65 535 operations: SAM text writes them out, BAM parks them in a CG field behind a
+// placeholder; conversions between the two must keep them
+
+#[derive(Clone, Debug, Serialize, Deserialize)]
+pub struct LongCigarCase {
+    pub n_ops: u32,
+    /// the sequence is stored (`false`: SEQ `*`, as for secondary alignments of long reads)
+    pub with_seq: bool,
+    pub seed: u32,
+}
+
+fn long_cigar_strategy(_tier: Tier) -> BoxedStrategy<LongCigarCase> {
+    (prop_oneof![2 => proptest::sample::select(vec![65_535u32, 65_536, 65_537]), 3 => 65_536u32..72_000], any::<bool>(), any::<u32>()).prop_map(|(n_ops, with_seq, seed)| LongCigarCase { n_ops, with_seq, seed }).boxed()
+}
+
+fn check_long_cigar(c: &LongCigarCase) -> Verdict {
+    use sam::alignment::record::cigar::{Op, op::Kind};
+    use sam::header::record::value::{Map, map::ReferenceSequence};
+    let header = sam::Header::builder().add_reference_sequence("sq0", Map::<ReferenceSequence>::new(std::num::NonZero::new(1usize << 28).unwrap())).build();
+    let repo = noodles_fasta::Repository::default();
+    // alternating 1M / 1I … (read length = n_ops), on the reference at position 100
+    let ops: Vec<Op> = (0..c.n_ops).map(|i| Op::new(if i % 2 == 0 { Kind::Match } else { Kind::Insertion }, 1)).collect();
+    let n = c.n_ops as usize;
+    let mut rng = crate::r#gen::payload::XorShift::new(c.seed as u64 + 5);
+    let mut b = sam::alignment::RecordBuf::builder()
+        .set_name(&b"longcigar"[..])
+        .set_flags(sam::alignment::record::Flags::SECONDARY)
+        .set_reference_sequence_id(0)
+        .set_alignment_start(noodles_core::Position::new(100).unwrap())
+        .set_mapping_quality(sam::alignment::record::MappingQuality::new(30).unwrap())
+        .set_cigar(ops.into_iter().collect());
+    if c.with_seq {
+        let seq: Vec<u8> = (0..n).map(|_| b"ACGT"[(rng.next() % 4) as usize]).collect();
+        let qual: Vec<u8> = (0..n).map(|_| (rng.next() % 40) as u8 + 2).collect();
+        b = b.set_sequence(seq.into()).set_quality_scores(qual.into());
+    }
+    let short = |name: &str| sam::alignment::RecordBuf::builder().set_name(name.as_bytes()).set_flags(sam::alignment::record::Flags::UNMAPPED).set_sequence(b"ACGT".to_vec().into()).set_quality_scores(vec![30u8; 4].into()).build();
+    let input = vec![short("a"), b.build(), short("z")];
+    let want: Vec<gcram::Canon> = input.iter().map(gcram::canon_of_record).collect();
+    let boxed = |v: &[sam::alignment::RecordBuf]| -> Vec<Box<dyn sam::alignment::Record>> { v.iter().map(|r| Box::new(r.clone()) as Box<dyn sam::alignment::Record>).collect() };
+    const FMTS: [AFmt; 3] = [AFmt::Sam, AFmt::SamGz, AFmt::Bam];
+    let mut fails = Fails::new();
+    let mut evals = 0u64;
+    let mut files = Vec::new();
+    // (class, detail): class "cg-visible" = the only difference is a CG field next to the restored
+    // CIGAR — the lazy bam::Record shows it (C05 finding c05.lazy.convert.cg-visible) and the generic
+    // reader hands out lazy records
+    let same = |got: &[sam::alignment::RecordBuf]| -> Option<(&'static str, String)> {
+        let g: Vec<gcram::Canon> = got.iter().map(gcram::canon_of_record).collect();
+        if g.len() != want.len() {
+            return Some(("differs", format!("{} records, {} written", g.len(), want.len())));
+        }
+        let i = g.iter().zip(want.iter()).position(|(a, b)| a != b)?;
+        let detail = format!("record {i} differs: CIGAR has {} operations, {} written; {} aux fields, {} written", got[i].cigar().as_ref().len(), input[i].cigar().as_ref().len(), got[i].data().len(), input[i].data().len());
+        let without_cg: Vec<gcram::Canon> = got
+            .iter()
+            .map(|r| {
+                let mut r = r.clone();
+                let cg = r.data().iter().map(|(t, _)| t).find(|t| t.as_ref() == b"CG");
+                if let Some(t) = cg {
+                    r.data_mut().remove(&t);
+                }
+                gcram::canon_of_record(&r)
+            })
+            .collect();
+        Some((if without_cg == want { "cg-visible" } else { "differs" }, detail))
+    };
+    for fmt in FMTS {
+        evals += 1;
+        match write_aln(fmt, &header, &boxed(&input), &repo) {
+            Err(e) => fails.push(format!("c20.long-cigar.write-error:{}", fmt.name()), format!("{e}")),
+            Ok(bytes) => match read_aln(&bytes, &repo) {
+                Err(e) => fails.push(format!("c20.long-cigar.detect-or-read-error:{}", fmt.name()), format!("{e}")),
+                Ok((_, recs)) => {
+                    if let Some((class, d)) = same(&recs) {
+                        fails.push(format!("c20.long-cigar.{class}:{}", fmt.name()), d);
+                    }
+                    files.push((fmt, bytes));
+                }
+            },
+        }
+    }
+    for (a, bytes) in &files {
+        for bfmt in FMTS {
+            if *a == bfmt {
+                continue;
+            }
+            evals += 1;
+            let what = format!("{}->{}", a.name(), bfmt.name());
+            let piped = (|| -> io::Result<Vec<u8>> {
+                let mut r = alignment::io::reader::Builder::default().set_reference_sequence_repository(repo.clone()).build_from_reader(&bytes[..])?;
+                let h = r.read_header()?;
+                let recs: Vec<Box<dyn sam::alignment::Record>> = r.records(&h).collect::<io::Result<_>>()?;
+                write_aln(bfmt, &h, &recs, &repo)
+            })();
+            match piped.and_then(|out| read_aln(&out, &repo)) {
+                Err(e) => fails.push(format!("c20.long-cigar.convert-error:{what}"), format!("{e}")),
+                Ok((_, recs)) => {
+                    if let Some((class, d)) = same(&recs) {
+                        fails.push(format!("c20.long-cigar.convert-{class}:{what}"), d);
+                    }
+                }
+            }
+        }
+    }
+    fails.finish(Pass::new(true, key_of(c)).evals(evals).label_if(c.n_ops > 65_535, "cigar>65535").label_if(!c.with_seq, "seq-missing"))
+}
+
 pub fn property() -> Property {
     Property {
         id: "C20",
@@ -672,6 +781,7 @@ pub fn property() -> Property {
             .boxed(),
             sub("alignment_headerless", "SAM/SAM.gz/BAM/CRAM streams with an empty header and unmapped reads whose first name begins like a magic number (BAM, CRAM, BCF, …) or not; every case is non-trivial; distinct by hash", |_tier| headerless_strategy(), check_headerless, 10_000, 100_000).boxed(),
             sub("alignment_long_read", "0–3 short reads, one read of 60 000–300 000 bases, 0–3 short reads, through SAM/SAM.gz/BAM/CRAM and the conversions out of the BGZF formats; every case is non-trivial; distinct by hash", long_read_strategy, check_long_read, 600, 8_000).boxed(),
+            sub("alignment_long_cigar", "a mapped secondary record with 65 535–72 000 CIGAR operations, with its sequence or with SEQ `*`, between two short reads, through SAM/SAM.gz/BAM and the six conversions among them; every case is non-trivial; distinct by hash", long_cigar_strategy, check_long_cigar, 40, 600).boxed(),
             sub(
                 "variant",
                 "non-trivial = document with ≥1 record; distinct by hash of the document",
